@@ -109,6 +109,8 @@ def gen_form(rng, lo, hi, width, depth):
     a (signedness cast of a) wider slice, or a concatenation of two such targets."""
     k = rng.random()
     if depth == 0 or k < 0.45:
+        if lo % (hi - lo) == 0 and rng.random() < 0.35:
+            return ["word"]          # word_select with a constant index
         return ["plain"]
     olo, ohi = rng.randrange(0, lo + 1), rng.randrange(hi, width + 1)
     if k < 0.7:
@@ -125,6 +127,8 @@ def build_target(sig, lo, hi, form):
     from amaranth.hdl import Cat
     if form[0] == "plain":
         return sig[lo:hi]
+    if form[0] == "word":
+        return sig.word_select(lo // (hi - lo), hi - lo)
     if form[0] == "cast":
         _, sgn, olo, ohi, sub = form
         base = build_target(sig, olo, ohi, sub)
@@ -241,7 +245,7 @@ def enum_driver_plans():
 # ---- dependency plans --------------------------------------------------------------------------------
 def width_of(e, widths):
     op = e[0]
-    if op == "bits":
+    if op in ("bits", "wbits"):
         return e[3] - e[2]
     if op == "const":
         return e[1]
@@ -263,7 +267,7 @@ def width_of(e, widths):
 def deps(e, conservative):
     """-> list (one entry per result bit) of frozensets of source bits (sig, bit)."""
     op = e[0]
-    if op == "bits":
+    if op in ("bits", "wbits"):
         return [frozenset([(e[1], b)]) for b in range(e[2], e[3])]
     if op == "const":
         return [frozenset()] * e[1]
@@ -311,6 +315,10 @@ def build_expr(e, sigs):
     op = e[0]
     if op == "bits":
         return sigs[e[1]][e[2]:e[3]]
+    if op == "wbits":
+        # the same bits written as a word select with a constant index (still a bit-precise construct)
+        n = e[3] - e[2]
+        return sigs[e[1]].word_select(e[2] // n, n)
     if op == "const":
         return Const(e[2], e[1])
     if op == "not":
@@ -353,6 +361,8 @@ def gen_dep_plan(rng):
         if n > w:
             return ["const", n, rng.getrandbits(n)]
         lo = rng.randrange(0, w - n + 1)
+        if lo % n == 0 and rng.random() < 0.4:
+            return ["wbits", s, lo, lo + n]
         return ["bits", s, lo, lo + n]
 
     def rand_expr(n, depth):
@@ -469,6 +479,9 @@ def gen_ladder_plan(rng):
                 parts[-1][3] = b + 1
             else:
                 parts.append(["bits", s, b, b + 1])
+        for part in parts:
+            if (part[2] % (part[3] - part[2])) == 0 and rng.random() < 0.3:
+                part[0] = "wbits"
         return parts[0] if len(parts) == 1 else ["cat", parts]
 
     def expr(bits, depth):
